@@ -40,6 +40,17 @@ class Raised:
     """result of a call into the system under simulation that raised"""
 
     def __init__(self, exc):
+        # the traceback keeps the frames of the failed call alive (readers, file handles, buffers) in a reference cycle
+        # that only the cyclic collector frees - at a moment no seed decides, and freeing a handle is an event in the
+        # simulated file system's log.  Without tracebacks the objects go away by reference count, deterministically.
+        todo, seen = [exc], set()
+        while todo:
+            e = todo.pop()
+            if e is None or id(e) in seen:
+                continue
+            seen.add(id(e))
+            e.__traceback__ = None
+            todo += [e.__cause__, e.__context__]
         self.exc = exc
         self.type = type(exc).__name__
         self.msg = str(exc)[:300]
